@@ -88,6 +88,13 @@ def _inject(item):
     with open(path, "wb") as f:
         f.write(data)
     payload = "print('vp-injected')"
+    # without --inject-target the documented default is pickle 0
+    rc0, so0, _se0 = run_cli(["--inject", payload, path])
+    rcx, sox, _sex = run_cli(["--inject", payload, "--inject-target", "0", path])
+    st.inc("cli_inject_runs", 2)
+    if (rc0, so0) != (rcx, sox):
+        out.violate(PROP, "C18|default-target", f"stack {list(names)}: omitting --inject-target does not behave like --inject-target 0",
+                    {"engine": "E3", "stack": list(names), "argv": ["--inject", payload], "via": "file", "bytes": data}, n)
     for target, run_last, replace, via in itertools.product(range(n + 2), (False, True), (False, True), ("file", "stdin")):
         argv = ["--inject", payload, "--inject-target", str(target)]
         if run_last:
